@@ -308,7 +308,7 @@ func runC17(c *Ctx) {
 		okArgs := false
 		for _, cl := range callsTo(resolve, rr) {
 			a := declArgs(cl)
-			if len(a) == 4 && strings.Contains(c.Path(a[0], nil), ".ParseDID[") && c.Path(a[1], nil) == "$1" && strings.HasSuffix(c.Path(a[2], nil), "#1") {
+			if len(a) == 4 && strings.Contains(c.Path(a[0], nil), ".ParseDID[") && strings.Contains(c.Path(a[1], nil), "$1") && strings.HasSuffix(c.Path(a[2], nil), "#1") {
 				okArgs = true
 			}
 		}
@@ -351,27 +351,13 @@ func runC17(c *Ctx) {
 		env := Env{f.Params[1]: `""`, f.Params[2]: `""`}
 		pr := c.pruned(f, env)
 		live := reach(f.Blocks[0], pr)
-		sprintf := func(v ssa.Value) (string, []string) {
-			cl, ok := v.(*ssa.Call)
-			if !ok || cl.Call.StaticCallee() == nil || cl.Call.StaticCallee().String() != "fmt.Sprintf" {
-				return "", nil
-			}
-			return c.Path(cl.Call.Args[0], env), c.varargPaths(cl.Call.Args[1], env)
-		}
-		var shortID ssa.Value
+		// values are read in canonical concatenation form (+ chains and Sprintf("%s:%s", …) alike), φs restricted to
+		// the edges that are live when label and domain are empty (the long-form resolution case)
+		c.phiEdgeLive = func(phi *ssa.Phi, i int) bool { _, l := live[phi.Block().Preds[i]]; return l }
+		const short, long = `$0 ++ ":" ++ $3`, `$0 ++ ":" ++ $3 ++ ":" ++ $4`
 		okID, okEq := false, false
 		forEachInstr(f, func(in ssa.Instruction) {
 			if _, isLive := live[in.Block()]; !isLive {
-				return
-			}
-			if cl, ok := in.(*ssa.Call); ok {
-				if fm, args := sprintf(cl); fm == `"%s:%s"` && eqStrs(args, []string{"$0", "$3"}) {
-					shortID = cl
-				}
-			}
-		})
-		forEachInstr(f, func(in ssa.Instruction) {
-			if _, isLive := live[in.Block()]; !isLive || shortID == nil {
 				return
 			}
 			mu, ok := in.(*ssa.MapUpdate)
@@ -380,26 +366,36 @@ func runC17(c *Ctx) {
 			}
 			switch c.Path(mu.Key, nil) {
 			case `"id"`:
-				// value: phi(long form | short id) where long form = Sprintf("%s:%s", shortID, $4) on the $4 != "" edge
+				// the stored id: the long form on the paths where the initial state is non-empty, the short form otherwise
 				var v ssa.Value = mu.Value
 				if mi, isMI := v.(*ssa.MakeInterface); isMI {
 					v = mi.X
 				}
 				if phi, isPhi := v.(*ssa.Phi); isPhi {
+					nLong, bad := 0, false
 					for i, e := range phi.Edges {
-						if _, l := live[phi.Block().Preds[i]]; !l {
+						if !c.phiEdgeLive(phi, i) {
 							continue
 						}
-						if fm, args := sprintf(e); fm == `"%s:%s"` && len(args) == 2 && args[1] == "$4" && strings.Contains(args[0], `fmt.Sprintf("%s:%s"`) {
-							// guarded by $4 != ""
-							pb := phi.Block().Preds[i]
-							for _, ce := range c.condsOf(pb) {
+						switch c.concatForm(e, env) {
+						case long:
+							guarded := false
+							for _, ce := range c.condsOf(phi.Block().Preds[i]) {
 								if ce == `($4 != "")=true` {
-									okID = true
+									guarded = true
 								}
 							}
+							if guarded {
+								nLong++
+							} else {
+								bad = true
+							}
+						case short:
+						default:
+							bad = true
 						}
 					}
+					okID = nLong > 0 && !bad
 				}
 			case `"equivalentId"`:
 				for v := range backSlice(mu.Value) {
@@ -413,8 +409,8 @@ func runC17(c *Ctx) {
 					if _, l := live[ap.Block()]; !l {
 						continue
 					}
-					el := c.varargPaths(ap.Call.Args[1], env)
-					if len(el) == 1 && strings.Contains(el[0], c.Path(shortID, env)) {
+					els, okV := c.varargValues(ap.Call.Args[1])
+					if okV && len(els) == 1 && c.concatForm(els[0], env) == short {
 						for _, ce := range c.condsOf(ap.Block()) {
 							if ce == `($4 != "")=true` {
 								okEq = true
@@ -424,8 +420,10 @@ func runC17(c *Ctx) {
 				}
 			}
 		})
+		c.phiEdgeLive = nil
+		shortID := true
 		c.Check("C17.P2", "unpublished:id=ns:suffix:initial-state", okID, f.Pos(), "with an initial state the document id is \"<ns>:<suffix>:<initial state>\"")
-		c.Check("C17.P2", "unpublished:equivalentId=ns:suffix", okEq && shortID != nil, f.Pos(), "the short form \"<ns>:<suffix>\" is listed as equivalent id")
+		c.Check("C17.P2", "unpublished:equivalentId=ns:suffix", okEq && shortID, f.Pos(), "the short form \"<ns>:<suffix>\" is listed as equivalent id")
 	}
 	// ProcessOperation: the long-form DID handed back embeds b64url(JCS(create request)) — what ResolveDocument
 	// requires of an initial state (C17.G1) — and the suffix of the parsed operation
@@ -542,6 +540,25 @@ func (c *Ctx) canonCond(cond ssa.Value, truth bool) string {
 				return fmt.Sprintf("%s=%v", cs, truth)
 			}
 		}
+	}
+	// comparisons: one spelling per relation — negation folded into the operator, > and >= flipped into < and <=,
+	// constants of == / != on the right; the rendered condition is then always "=true"
+	if bo, ok := cond.(*ssa.BinOp); ok && isCmp(bo.Op) {
+		l, r, op := c.Path(bo.X, nil), c.Path(bo.Y, nil), bo.Op
+		if !truth {
+			op = negOp(op)
+		}
+		switch op {
+		case token.GTR, token.GEQ:
+			l, r, op = r, l, flipOp(op)
+		case token.EQL, token.NEQ:
+			_, lk := bo.X.(*ssa.Const)
+			_, rk := bo.Y.(*ssa.Const)
+			if (lk && !rk) || (lk == rk && r < l) {
+				l, r = r, l
+			}
+		}
+		return fmt.Sprintf("(%s %s %s)=true", l, op.String(), r)
 	}
 	return fmt.Sprintf("%s=%v", c.Path(cond, nil), truth)
 }
